@@ -352,7 +352,9 @@ Inductive kcase :=
 | KSkip
 | KHl (data expected : list Z)
 | KEc (level : Z) (data expected : list Z)
-| KPix (level cols : Z) (data : list Z) (w h : Z) (rows : list Z).
+| KPix (level cols : Z) (data : list Z) (w h : Z) (rows : list Z)
+| KRow (rows cols level : Z) (lefts rights : list Z)
+| KNRows (m k c expected : Z).
 Fixpoint zl_eqb (a b : list Z) : bool :=
   match a, b with
   | [], [] => true
@@ -364,6 +366,13 @@ Definition case_ok (c : kcase) : bool :=
   | KSkip => true
   | KHl d e => match pdf_highlevel d with Ok r => zl_eqb r e | _ => false end
   | KEc l d e => match pdf_compute l d with Ok r => zl_eqb r e | _ => false end
+  | KRow r c l ls rs =>
+    let idx := pdf_range 0 (Z.to_nat r) in
+    zl_eqb (map (fun i => pdf_left_codeword i r c l) idx) ls &&
+    zl_eqb (map (fun i => pdf_right_codeword i r c l) idx) rs &&
+    zl_eqb (map (fun i => pdfs_left_indicator i r c l) idx) ls &&
+    zl_eqb (map (fun i => pdfs_right_indicator i r c l) idx) rs
+  | KNRows m k c e => match pdf_number_of_rows m k c with Ok r => r =? e | _ => false end
   | KPix l c d w h rows =>
     match pdf_encode d l c with
     | Ok bc => (bc_width bc =? w) && (bc_height bc =? h) && zl_eqb (map pdfs_bits_value (bc_rows bc)) rows
@@ -396,6 +405,11 @@ def coq_case(line, impl_out):
             w, h = f[3].split("-")[1].split("x")
             rows = [int(r, 2) for r in f[6].split("/")]
             return "KPix %s %s %s %s %s %s" % (t[1], t[3], _zl(_hexbytes(t[2])), w, h, _zl(rows))
+        if t[0] == "pdfrow":
+            pairs = [p.split(":") for p in impl_out.split(" ")]
+            return "KRow %s %s %s %s %s" % (t[1], t[2], t[3], _zl(p[0] for p in pairs), _zl(p[1] for p in pairs))
+        if t[0] == "pdfnrows":
+            return "KNRows %s %s %s %s" % (t[1], t[2], t[3], impl_out)
     except Exception:
         pass
     return "KSkip"
